@@ -207,7 +207,7 @@ func (p *Parsed) Analyse(q Request, r Router) Analysis {
 		dominated := false
 		// RouterJSR311 documents best-match among roots only for literal root paths: when a
 		// variable root competes every claiming root is an acceptable choice.
-		if !(r == JSR311 && anyVarRoot) {
+		if !(r.Base() == JSR311 && anyVarRoot) {
 			for _, j := range a.Claiming {
 				if j != i && MoreSpecificRoot(p.Roots[j], p.Roots[i]) {
 					dominated = true
